@@ -22,4 +22,9 @@ SiblingsOK(d) == d.kind = "dir" =>
 RECURSIVE PathsComposed(_)
 PathsComposed(d) == d.kind = "dir" =>
   \A k \in 1 .. Len(d.kids) : d.kids[k].path = d.path \o "/" \o d.kids[k].name /\ PathsComposed(d.kids[k])
+\* two trees carry the same paths at every level (both with kids sorted by name)
+RECURSIVE SamePaths(_, _)
+SamePaths(d, s) == /\ d.path = s.path
+                   /\ Len(d.kids) = Len(s.kids)
+                   /\ \A k \in 1 .. Len(d.kids) : SamePaths(d.kids[k], s.kids[k])
 =============================================================================
